@@ -161,6 +161,14 @@ class State:
         s._feas_v = getattr(self, "_feas_v", False)
         return s
 
+    def snap(self):
+        """facts-only snapshot (cheap): enough to decide entailments later"""
+        f = FactSnap()
+        f.facts = list(self.facts)
+        f.eqs = list(self.eqs)
+        f.trace = tuple(self.trace[-6:])
+        return f
+
     def add(self, f: Lin):
         if not isinstance(f, Lin):
             return
@@ -221,6 +229,14 @@ class State:
         self.retval = other.retval
 
 
+class FactSnap:
+    def le(self, a, b) -> bool:
+        return entails_nonneg(self.facts, lin(b) - lin(a), eqs=self.eqs)
+
+    def eq(self, a, b) -> bool:
+        return self.le(a, b) and self.le(b, a)
+
+
 def vkey(v):
     """hashable structural key of an abstract value (no string formatting)"""
     if v is None:
@@ -252,10 +268,13 @@ def vkey(v):
 
 
 def _tkey(t):
+    try:
+        hash(t)
+        return t
+    except TypeError:
+        pass
     if isinstance(t, tuple):
         return tuple(_tkey(x) for x in t)
-    if isinstance(t, (str, bytes, int, Lin)) or t is None:
-        return t
     return repr(t)
 
 
@@ -338,6 +357,9 @@ class Interp:
         self.node_sites: list[SiteRecord] = []
         self.index_uses = []                     # (func, node, base AV, index Lin, facts snapshot) for C01
         self.unpack_uses = []
+        self.visited = set()         # ids of the statements the abstract execution reached
+        self.conv_uses = []          # (func, node, kind, argument AV, state) conversions that raise on malformed input
+        self.none_uses = []          # (func, node, state) attribute/method use of a possibly-None match
         self.div_uses = []
         self.notes = []
         self.call_stack: list[FuncInfo] = []
@@ -419,6 +441,7 @@ class Interp:
     def exec_stmt(self, stmt, st, fi):
         """explore all choice sequences of one statement"""
         self.steps += 1
+        self.visited.add(id(stmt))
         if self.steps > self.budget:
             raise BudgetExceeded(f"abstract interpretation: step budget {self.budget} exceeded in {fi.fq}")
         if isinstance(stmt, (ast.If, ast.For, ast.While, ast.Try, ast.With)):
@@ -649,7 +672,7 @@ class Interp:
                                     z = Lin.sym(self.fresh("elem"))
                                     inv = {k: x for k, x in nxt.env.items() if k not in assigned}
                                     lens = [x.length for x in inv.values() if isinstance(x, BytesV)]
-                                    cands = {Lin(0)} | {x.lin for x in inv.values() if isinstance(x, IntV)} | set(lens) | \
+                                    cands = {Lin(0), Lin(255)} | {x.lin for x in inv.values() if isinstance(x, IntV)} | set(lens) | \
                                         {a - b for a in lens for b in lens if a != b}
                                     gf = []
                                     for cand in cands:
@@ -694,6 +717,9 @@ class Interp:
         vals = [v for v in vals if v is not None]
         if not vals:
             return UnknownV(name)
+        # integer / bytes constants join with symbolic values of the same kind
+        vals = [IntV(Lin(v.value)) if isinstance(v, ConstV) and isinstance(v.value, int) and not isinstance(v.value, bool) else
+                (BytesV(("const", v.value), Lin(len(v.value))) if isinstance(v, ConstV) and isinstance(v.value, bytes) else v) for v in vals]
         if all(isinstance(v, IntV) for v in vals):
             # keep common bounds: candidates are the values themselves and the integer variables of the head state
             sym = Lin.sym(self.fresh(f"w_{name}"))
@@ -892,11 +918,13 @@ class Interp:
     def unpack(self, v, n, st, fi, node):
         if isinstance(v, TupleV):
             if len(v.items) == n:
+                self.unpack_uses.append((fi, node, f"tuple of {n}", True))
                 return v.items
             self.unpack_uses.append((fi, node, f"tuple of {len(v.items)} unpacked into {n}", False))
             return [UnknownV("unpack")] * n
         if isinstance(v, ConstV) and isinstance(v.value, (tuple, list)):
             if len(v.value) == n:
+                self.unpack_uses.append((fi, node, f"constant of {n}", True))
                 return [self.const_av(x) for x in v.value]
             self.unpack_uses.append((fi, node, f"constant of length {len(v.value)} unpacked into {n} targets", False))
             raise Abort()
@@ -1281,7 +1309,7 @@ class Interp:
                     return IntV(la.scale(lb.c))
                 return self.fresh_int(st, "mul")
             if isinstance(op, (ast.Mod, ast.FloorDiv, ast.Div)):
-                self.div_uses.append((fi, node, lb, list(st.facts)))
+                self.div_uses.append((fi, node, lb, st.snap()))
                 if isinstance(op, ast.Mod) and lb.is_const() and lb.c > 0:
                     return self.fresh_int(st, "mod", 0, lb.c - 1)
                 if isinstance(op, ast.Mod):
@@ -1292,6 +1320,11 @@ class Interp:
             if isinstance(op, ast.BitXor):
                 r = self.fresh_int(st, "xor", 0)
                 self.int_prov[next(iter(r.lin.t))] = ("xor", la, lb)
+                for k in (8, 16, 32):
+                    top = Lin(2 ** k - 1)
+                    if st.le(0, la) and st.le(0, lb) and st.le(la, top) and st.le(lb, top):
+                        st.add(top - r.lin)      # the xor of two k-bit values is a k-bit value
+                        break
                 return r
             if isinstance(op, (ast.BitAnd,)):
                 r = self.fresh_int(st, "and", 0)
@@ -1312,7 +1345,7 @@ class Interp:
             if oa["kind"] == "list" and ob["kind"] == "list":
                 return self.alloc(st, "list", items=oa["items"] + ob["items"], summary=True)
         if isinstance(op, ast.Div):
-            self.div_uses.append((fi, node, lb, list(st.facts)))
+            self.div_uses.append((fi, node, lb, st.snap()))
             return UnknownV("float")
         return UnknownV(f"binop {type(op).__name__}")
 
@@ -1436,7 +1469,7 @@ class Interp:
         return pz
 
     def record_index(self, fi, node, base, idx, st):
-        self.index_uses.append((fi, node, base, idx, st.clone()))
+        self.index_uses.append((fi, node, base, idx, st.snap(), self.length_of(base, st) if not isinstance(base, tuple) else None))
 
     def slice(self, base, lo, hi, step, st, node):
         bb = self.as_bytes(base)
@@ -1761,6 +1794,8 @@ class Interp:
     # -- methods ---------------------------------------------------------------------------------
     def call_method(self, recv, name, args, kwargs, st, node, fi):
         if isinstance(recv, MatchV):
+            if recv.maybe_none:
+                self.none_uses.append((fi, node, st.snap()))
             return self.match_method(recv, name, args, st, node, fi)
         if isinstance(recv, Ref):
             o = st.heap[recv.oid]
@@ -1785,6 +1820,7 @@ class Interp:
             return self.bytes_method(b, recv, name, args, kwargs, st, node, fi)
         if isinstance(recv, StrV) or (isinstance(recv, ConstV) and isinstance(recv.value, str)):
             if name == "encode":
+                self.conv_uses.append((fi, node, "encode", [recv] + list(args), dict(kwargs), st.snap(), None))
                 if isinstance(recv, ConstV):
                     return ConstV(recv.value.encode())
                 return self.fresh_bytes(st, ("encode", recv.term))
@@ -1971,6 +2007,7 @@ class Interp:
                 return self.fresh_bytes(st, t, maxlen=L)
             return self.fresh_bytes(st, t)
         if name == "decode":
+            self.conv_uses.append((fi, node, "decode", [recv] + list(args), dict(kwargs), st.snap(), None))
             return StrV(("decode", b.term, tuple(a.value if isinstance(a, ConstV) else "?" for a in args),
                          tuple(sorted((k, v.value if isinstance(v, ConstV) else "?") for k, v in kwargs.items()))))
         if name == "hex":
@@ -1986,6 +2023,13 @@ class Interp:
         if name.startswith("class:"):
             return self.alloc(st, "obj", attrs={}, cls=name[6:])
         a0 = args[0] if args else None
+        if name in ("int", "bytes", "chr", "binascii.unhexlify", "binascii.a2b_hex", "bytes.fromhex", "binascii.a2b_base64", "struct.unpack_from", "struct.unpack",
+                    "max", "min", "next", "ipaddress.IPv4Address", "ipaddress.IPv6Address", "socket.inet_aton", "socket.inet_pton", "urllib.parse.urlsplit", "pefile.PE"):
+            extra = None
+            if name == "bytes" and isinstance(a0, Ref) and st.heap[a0.oid]["kind"] == "list":
+                o_ = st.heap[a0.oid]
+                extra = list(o_["items"]) + ([o_["elem"]] if o_.get("elem") is not None else [])
+            self.conv_uses.append((fi, node, name, list(args), dict(kwargs), st.snap(), extra))
         if name == "len":
             n = self.length_of(a0, st)
             if n is not None:
@@ -2135,6 +2179,13 @@ class Interp:
         if name in ("all", "any", "isinstance", "hasattr", "callable", "bool"):
             return BoolV(None, name)
         if name == "set" or name == "frozenset":
+            n0 = self.length_of(a0, st) if a0 is not None else None
+            if n0 is not None:
+                n = Lin.sym(self.fresh("distinct"))
+                st.add(n)
+                st.add(n0 - n)
+                # a non-empty sequence has at least one distinct element; an empty one has none
+                return self.alloc(st, "list", items=[], elem=self.fresh_int(st, "member"), summary=True, length=n, distinct_of=n0)
             return UnknownV("set")
         if name == "struct.unpack_from" or name == "struct.unpack":
             fmt = a0.value if isinstance(a0, ConstV) else None
@@ -2144,7 +2195,7 @@ class Interp:
                 size = _s.calcsize(fmt)
                 buf = self.as_bytes(args[1]) if len(args) > 1 else None
                 off = self.as_lin(args[2]) if len(args) > 2 else Lin(0)
-                self.index_uses.append((fi, node, ("struct", buf, size), IntV(off) if off is not None else None, st.clone()))
+                self.index_uses.append((fi, node, ("struct", buf, size), IntV(off) if off is not None else None, st.snap()))
                 return TupleV([self.fresh_int(st, "field", 0, 2 ** (8 * size // max(n, 1)) - 1) for _ in range(n)])
             return UnknownV("struct")
         if name == "urllib.parse.urlsplit":
